@@ -76,7 +76,16 @@ CxxSupported(d) ==
 JavaSupported(d) ==
   /\ CommonSupported(d)
   /\ \A i \in 1..Len(d.decls) : d.decls[i].kind # "custom"
-  /\ AllFieldsSat(d, LAMBDA decl, j, f : f.kind \notin {"elementsize", "padding"} /\ ~IsOptional(f))
+  /\ \A i \in 1..Len(d.decls) : d.decls[i].kind = "struct" => d.decls[i].parent = ""   \* derived structs: a struct-typed
+                                                    \* field is surfaced as its specialised child class; not compared
+  (* no aliased children (java guide): a child without fields of its own *)
+  /\ \A i \in PacketLike(d) : d.decls[i].parent # "" =>
+         \E j \in 1..Len(d.decls[i].fields) : ~IsPayloadField(d.decls[i].fields[j])
+  /\ AllFieldsSat(d, LAMBDA decl, j, f : f.kind \notin {"elementsize", "padding", "body"} /\ ~IsOptional(f))
+  (* java guide: no constraints on >1st order ancestors *)
+  /\ \A i \in PacketLike(d) : d.decls[i].parent # "" /\ HasDecl(d, d.decls[i].parent) =>
+         \A c \in SeqToSet(d.decls[i].cons) :
+            \E j \in 1..Len(DeclOf(d, d.decls[i].parent).fields) : DeclOf(d, d.decls[i].parent).fields[j].id = c.id
 
 (* Round-trippable (C02).  The class is decided per value by the reference  *)
 (* semantics itself: v is round-trippable iff DecodeFull(Encode(v)) = v in    *)
